@@ -31,8 +31,8 @@ def _exec(h):
     try:
         return reent.execute(h['hist'])
     except Exception as e:  # noqa
-        import traceback
-        return dict(error=f'{type(e).__name__}: {e} {traceback.format_exc()[-400:]}')
+        from lib.errors import describe
+        return dict(error=describe(e, 400))
 
 
 def run(tier, seed):
@@ -68,7 +68,7 @@ def run(tier, seed):
         nt = 0
         for hi, (h, o) in enumerate(zip(hs, out)):
             if isinstance(o, dict) and 'error' in o:
-                rep.machinery.append('history failed: ' + o['error'])
+                rep.problem('history failed: ' + o['error'], dict(hist=h['hist']), clause='not_memoryless.unexpected_library_error')
                 continue
             terms = [json.dumps(op['term']) for op in h['hist'] if op['op'] == 'run']
             if len(set(terms)) < len(terms) or any(op['op'] == 'run' and op['src'] != 0 for op in h['hist']):
